@@ -78,7 +78,7 @@ def gen_prog(rng, profile, nslots, nprogs, pidx, malformed, names):
             if rng.random() < 0.7:
                 prog.append(('yield', sl, handler(rng)))
         elif op == 'ret' and k > n // 2:
-            prog.append(('ret', val(rng)))
+            prog.append(('ret', val(rng)) if rng.random() < 0.7 else ('retev', sl))      # a value, or the event object a slot holds
         elif op == 'raise' and k > n // 2:
             prog.append(('raise', rng.choice(EXCS), rng.randint(0, 9)))
     return prog
@@ -239,6 +239,77 @@ def gen_decided(rng, cid, mode='step'):
         rng.shuffle(rest)
     # the builder creates the shared events: it always starts first
     c.mains = [first] + rest
+    return c
+
+
+# ------------------------------------------------------------------------------------------------
+# processes whose return value is an event object (C02 "a process's own termination is such an event carrying its return value"):
+# * a launcher starts a worker and returns its handle (the Process) to whoever joins the launcher; the caller keeps the handle,
+#   joins the worker through it, interrupts it, or builds a condition over it;
+# * a keeper returns the handle of a process that has already finished (or failed, the failure having been handled), its OWN
+#   handle, a shared event (pending, triggered, processed), a timeout or a condition;
+# waiters, probe callbacks and conditions sit on the launcher; the worker returns, raises or never ends
+
+def gen_launcher(rng, cid, mode='step'):
+    c = Case(cid, mode)
+    names = 700
+    main = []
+    c.progs.append(main)
+    c.mains.append((0, 1))
+    t = rng.choice([0, 0.5, 1, 1, 2])
+    what = rng.choice(['worker', 'worker', 'worker', 'finished', 'self', 'event', 'timeout', 'cond'])
+    # program 1: what the returned handle stands for
+    wend = rng.choice([('ret', val(rng)), ('ret', val(rng)), ('raise', rng.choice(EXCS), rng.randint(0, 9)), ('yield', 9, 0)])   # slot 9: an event nobody triggers
+    c.progs.append([('log', 30), ('timeout', 10, rng.choice([0, 1, 3, 5]), None), ('yield', 10, 0), ('log', 31), wend])
+    launcher = [('timeout', 11, t, None), ('yield', 11, 0)]
+    if what == 'worker':
+        names += 1
+        launcher += [('spawn', 2, 1, names)]
+        if rng.random() < 0.3:
+            launcher += [('timeout', 12, rng.choice([0, 1]), None), ('yield', 12, 0)]
+        launcher += [('log', 32), ('retev', 2)]
+    elif what == 'finished':
+        names += 1
+        main += [('spawn', 2, 1, names), ('yield', 2, 0)]           # joined (its failure handled) before the launcher even starts
+        launcher += [('retev', 2)]
+    elif what == 'self':
+        launcher += [('retev', 1)]                                  # slot 1 will hold the launcher itself
+    elif what == 'event':
+        main += [('event', 2)]
+        if rng.random() < 0.6:
+            main += [('succeed', 2, val(rng))]
+        launcher += [('retev', 2)]
+    elif what == 'timeout':
+        launcher += [('timeout', 2, rng.choice([0, 2, 5]), val(rng)), ('retev', 2)]
+    else:
+        launcher += [('timeout', 3, 2, val(rng)), ('event', 4), (rng.choice(['allof', 'anyof']), 2, 3, 4), ('retev', 2)]
+    c.progs.append(launcher)
+    main += [('event', 9)]
+    names += 1
+    main += [('spawn', 1, 2, names)]
+    if rng.random() < 0.5:
+        main += [('probe', 1, 7)]
+    # what the caller does with the handle it receives
+    use = rng.random()
+    main += [('yield', 1, rng.choice([0, 0, 3])), ('log', 33)]
+    if use < 0.4:
+        main += [('yield', 2, rng.choice([0, 0, 3])), ('log', 34)]              # joins the worker through the handle
+    elif use < 0.6:
+        main += [('timeout', 13, 1, None), ('yield', 13, 0), ('interrupt', 2, 5), ('yield', 2, 0)]
+    elif use < 0.75:
+        main += [('timeout', 13, rng.choice([1, 4]), None), (rng.choice(['allof', 'anyof']), 14, 2, 13), ('yield', 14, 0), ('log', 35)]
+    # further waiters of the launcher: registered before / after it ends; a condition over it
+    for j in range(rng.randint(0, 3)):
+        prog = [('timeout', 15 + j, rng.choice([0, 0, t, t, t + 1, t + 6]), None), ('yield', 15 + j, 0)]
+        if rng.random() < 0.25:
+            prog += [(rng.choice(['allof', 'anyof']), 20 + 2 * j, 1, 15 + j), ('yield', 20 + 2 * j, 0), ('log', 40 + j)]
+        else:
+            prog += [('yield', 1, rng.choice([0, 0, 3])), ('log', 40 + j)]
+        c.progs.append(prog)
+        c.mains.append((len(c.progs) - 1, 2 + j))
+    if rng.random() < 0.3:
+        c.progs.append([('timeout', 28, t + rng.choice([1, 8]), None), ('yield', 28, 0), ('log', 50)])     # later activity
+        c.mains.append((len(c.progs) - 1, 9))
     return c
 
 
